@@ -1,0 +1,29 @@
+//go:build verif
+
+// Contracts for package ristretto, checked by /verif/govc.  This file is
+// comment-only: with the build tag off the compiler never sees it, with the tag
+// on it adds no code.  Clauses are keyed by function name, loop ordinal (source
+// order) and clause label -- never by line number.
+package ristretto
+
+// ---------------------------------------------------------------- sketch.go (C18)
+
+//@ spec nib(r cmRow, n uint64) byte = (r[n/2] >> ((n & 1) * 4)) & 0x0f
+
+//@ func (r cmRow) get(n uint64) byte
+//@   requires n/2 < uint64(len(r))
+//@   ensures [C18] #value result == nib(r, n)
+//@   ensures [C18] #range result <= 15
+
+//@ func (r cmRow) increment(n uint64)
+//@   requires n/2 < uint64(len(r))
+//@   modifies r[*]
+//@   ensures [C18] #saturate nib(r, n) == ite(old(nib(r, n)) < 15, old(nib(r, n)) + 1, 15)
+//@   ensures [C18] #others forall m uint64 :: m/2 < uint64(len(r)) && m != n ==> nib(r, m) == old(nib(r, m))
+
+//@ func (r cmRow) reset()
+//@   modifies r[*]
+//@   loop 1 invariant -1 <= rangeindex && rangeindex <= len(r)
+//@   loop 1 invariant forall j int :: 0 <= j && j <= rangeindex && j < len(r) ==> r[j] == (old(r[j]) >> 1) & 0x77
+//@   loop 1 invariant forall j int :: rangeindex < j && j < len(r) ==> r[j] == old(r[j])
+//@   ensures [C18] #halve forall m uint64 :: m/2 < uint64(len(r)) ==> nib(r, m) == old(nib(r, m)) / 2
